@@ -25,7 +25,8 @@ ASSUMPTIONS = ['REPL model: line oriented, no echo, SIGINT cancels the open bloc
                'awaited form: run_command(async_=True) on the controlled real event loop (mc/aio.py), same sequences and cuts']
 EXHAUSTIVE = False      # complete only within the deviation bound, see BOUND_NOTE
 BOUND_NOTE = 'all placements of at most 2 chunk cuts are enumerated completely; more than 2 cuts per command sequence are not explored'
-REQUIRED_FLAGS = {'cut_inside_prompt': 1, 'incomplete_then_ok': 1, 'multiline': 1, 'large': 1, 'real_bash': 1, 'real_python': 1}
+REQUIRED_FLAGS = {'cut_inside_prompt': 1, 'incomplete_then_ok': 1, 'multiline': 1, 'large': 1, 'real_bash': 1, 'real_python': 1,
+                  'cut_before_last_prompt_char': 1, 'partial_output_then_incomplete_then_ok': 1, 'awaited_trailing_newline_block': 1}
 
 PROMPT = replwrap.PEXPECT_PROMPT
 CONT = replwrap.PEXPECT_CONTINUATION_PROMPT
@@ -42,6 +43,10 @@ COMMANDS = {
     'incomplete': ('begin', None),
     'trailingnl': ('one\n', 'line1' + NL),
     'blankinside': ('begin\n\none', 'blank-closed' + NL + 'line1' + NL),
+    # earlier lines already printed something when the last line turns out to be incomplete
+    'outthenincomplete': ('one\nbegin', None),
+    # a block that only runs on the empty line a trailing newline stands for (Python REPL)
+    'blockblank': ('begin\none\n', 'blank-closed' + NL),
 }
 OUT = {'noout': '', 'one': 'line1' + NL, 'three': 'l1' + NL + 'l2' + NL + 'l3' + NL, 'nonl': 'partial',
        'big10k': 'x' * 10000 + NL, 'big300k': ('0123456789' * 30000) + NL}
@@ -82,6 +87,8 @@ class Repl(object):
             cands.append(('boundary', len(output)))
         if len(prompt) > 2:
             cands.append(('inside-prompt', len(output) + len(prompt) // 2))
+            cands.append(('before-last-prompt-char', len(output) + len(prompt) - 1))
+            cands.append(('after-first-prompt-char', len(output) + 1))
         cut = None
         if self.cuts_left > 0 and cands:
             c = self.ch.choose(len(cands) + 1, 'cut')
@@ -209,6 +216,9 @@ def run_case(ch, seq, maxcuts=2, use_aio=False):
         viol = ('hang', str(h))
     except Cut as c:
         viol = ('horizon', str(c))
+    except (TIMEOUT, EOF) as e:
+        # outside a command: the wrapper could not even be set up on this REPL
+        viol = ('setup-raised', 'REPLWrapper() raised %s: the prompt the REPL wrote was not recognised' % type(e).__name__)
     finally:
         if use_aio:
             try:
@@ -237,6 +247,7 @@ BASH = {
     'incomplete': ('if true; then', None),
     'trailingnl': ('echo line1\n', 'line1' + NL),
     'quotedblank': ("echo 'a\n\nb'", 'a' + NL + NL + 'b' + NL),
+    'outthenincomplete': ('echo early\nif true; then', None),
 }
 
 PYTHON = {
@@ -248,13 +259,16 @@ PYTHON = {
     'block': ("for i in range(1):\n    print('block-done')\n", 'block-done' + NL),
     'incomplete': ('def f():', None),
     'blankinside': ("def f():\n    return 7\n\nprint(f())", '7' + NL),
+    'outthenincomplete': ("print(5)\ndef g():", None),
 }
 
 
-def run_real(task, acc):
+def run_real(task, acc, only_seq=None):
     TABLE, factory, label = (BASH, replwrap.bash, 'real-bash') if task['kind'] == 'real-bash' else (PYTHON, replwrap.python, 'real-python')
     names = sorted(TABLE)
     seqs = [s for n in (1, 2) for s in itertools.product(names, repeat=n)]
+    if only_seq is not None:
+        seqs = [tuple(only_seq)]
     for i, seq in enumerate(seqs):
         if i % task['parts'] != task['part']:
             continue
@@ -324,6 +338,12 @@ def run_task(task):
                     acc.nontrivial += 1
                 if 'inside-prompt' in obs.get('cuts', ()):
                     acc.flags['cut_inside_prompt'] += 1
+                if 'before-last-prompt-char' in obs.get('cuts', ()):
+                    acc.flags['cut_before_last_prompt_char'] += 1
+                if 'outthenincomplete' in seq[:-1]:
+                    acc.flags['partial_output_then_incomplete_then_ok'] += 1
+                if 'blockblank' in seq and task.get('aio'):
+                    acc.flags['awaited_trailing_newline_block'] += 1
                 if 'incomplete' in seq[:-1]:
                     acc.flags['incomplete_then_ok'] += 1
                 if any(s in ('twoline', 'block3', 'blankinside') for s in seq):
@@ -347,7 +367,7 @@ def replay(spec):
     if spec.get('real'):
         acc = Acc()
         t = dict(task, parts=1, part=0, tier='thorough')
-        run_real(t, acc)
+        run_real(t, acc, only_seq=spec['seq'])
         for k, v in acc.violations.items():
             if v[0]['replay']['seq'] == spec['seq']:
                 out['violation'] = {'key': k, 'msg': v[0]['msg']}
